@@ -39,10 +39,19 @@ Theorem C17_edges_exec : forall p cs, wf_prog p = true -> wf_classes p cs = true
             forall e, In e (g_edges g) <-> In e (g_edges (spec_graph p cs)).
 Proof. exact build_matches_spec_graph. Qed.
 
-(* no sequence of read-only operations (sub-diagram derivations with either flag, shallow copies, queries,
-   rendering), applied to the diagram or to any view derived from it, changes the diagram *)
-Theorem C17_views_pure : forall (g : graph) (ops : list op), graph_at (run_ops ops (init g)) 0 = Some g.
-Proof. exact source_intact. Qed.
+(* what one can observe of a diagram is its graph and the answers of its read-only queries (several of which are
+   memoised per diagram object).  After any sequence of read-only operations -- sub-diagram derivations with either
+   flag, shallow copies, queries and rendering, applied to the diagram or to any view derived from it, in any
+   order (the view asked first, then the source, or the reverse) -- the source has the graph it had and every
+   query on it answers what that graph says *)
+Theorem C17_views_pure : forall (g : graph) (ops : list op),
+  graph_at (run_ops ops (init g)) 0 = Some g /\ forall q, ask (run_ops ops (init g)) 0 q = answer g q.
+Proof. exact source_observations_intact. Qed.
+
+(* and every diagram object, derived ones included, answers what its own graph says *)
+Theorem C17_views_consistent : forall g ops t gt,
+  graph_at (run_ops ops (init g)) t = Some gt -> forall q, ask (run_ops ops (init g)) t q = answer gt q.
+Proof. exact observations_consistent. Qed.
 
 (* ... nor any other graph that existed when the operations started *)
 Theorem C17_views_pure_all : forall ops s i g,
@@ -53,6 +62,13 @@ Proof. exact views_pure. Qed.
 Theorem C17_refuted_subdiagram_before_fix :
   graph_at (fold_left run_op_shallow [OpSub 0 false] (init witness_graph)) 0 <> Some witness_graph.
 Proof. exact shallow_refuted. Qed.
+
+(* what C17_views_pure excludes: if a derived diagram kept the memo table of its source (a cache attribute copied
+   by copy(self)), asking the view first would change what the source answers although its graph is untouched *)
+Theorem C17_refuted_shared_memo :
+  let s := fold_left run_op_sharedmemo [OpSub 0 false; OpQuery 1 (QOutEdges 3)] (init witness_graph) in
+  graph_at s 0 = Some witness_graph /\ snd (step true s (OpQuery 0 (QOutEdges 3))) <> answer witness_graph (QOutEdges 3).
+Proof. exact sharedmemo_refuted. Qed.
 
 (* regression (C17-b, repaired by 90ccf0e): the old rule "contained type of an optional = get_args(...)[0]" answers
    NoneType on Union[None, X]; the code as translated now answers X, and Union[None, X] is inside wf_ty *)
@@ -86,7 +102,9 @@ Print Assumptions C17_classify_declared.
 Print Assumptions C17_edges.
 Print Assumptions C17_edges_exec.
 Print Assumptions C17_views_pure.
+Print Assumptions C17_views_consistent.
 Print Assumptions C17_views_pure_all.
 Print Assumptions C17_refuted_subdiagram_before_fix.
+Print Assumptions C17_refuted_shared_memo.
 Print Assumptions C17_regression_union_none_first.
 Print Assumptions C17_refuted_two_unresolved.
